@@ -12,9 +12,9 @@ LeafC == [type |-> 0, tlen |-> 0, maxDef |-> 1, maxRep |-> 0, path |-> <<<<99>>>
 ContA == [defs |-> <<0, 0, 0>>, reps |-> <<0, 0, 0>>, vals |-> << <<1,0,0,0>>, <<2,0,0,0>>, <<1,0,0,0>> >>]
 ContB == [defs |-> <<2, 2, 0, 1>>, reps |-> <<0, 1, 0, 0>>, vals |-> << <<120>>, <<>> >>]
 ContC == [defs |-> <<1, 0, 1>>, reps |-> <<0, 0, 0>>, vals |-> << <<1>>, <<0>> >>]
-Opts == [style : {"rle", "bp", "bp1", "mix", "zero", "pad1"}, idxStyle : {"rle", "bp"}, useDict : BOOLEAN,
-         dictOffsetField : BOOLEAN, dictEnc : {0, 2}, dataEnc : {2, 8}, crc : {"none", "good"}, codec : {0},
-         stats : {NoStatsW}, extraWidth : {0, 3}]
+Opts == [style : {"rle", "bp1", "mix", "zero", "pad1"}, idxStyle : {"bp"}, useDict : BOOLEAN,
+         dictOffsetField : BOOLEAN, dictEnc : {0}, dataEnc : {8}, crc : {"good"}, codec : {0},
+         stats : {NoStatsW}, extraWidth : {0, 3}, v2 : {FALSE}, encTag : {255}, codecTag : {255}]
 Desc(o, twoPages, extras, sty) ==
     [elements |-> Elems, createdBy |-> <<114, 101, 102>>, sty |-> sty, extras |-> extras,
      rgs |-> << [numRows |-> 3,
